@@ -83,24 +83,38 @@ def main():
     os.chdir(env["cwd"])
     import numpy as np
 
+    # imports first: some third-party modules consume the global `random` generator at import time
+    import deephyper
+    from deephyper.evaluator import Evaluator
+    from deephyper.hpo import CBO, RandomSearch, RegularizedEvolution
+
+    assert os.path.realpath(deephyper.__file__).startswith(os.path.realpath(src)), deephyper.__file__
+
     pert = int(env["perturb"])
     np.random.seed(pert)
     random.seed(pert * 7 + 1)
+    # shadows replay exactly what THIS script draws from the two process-global generators, so that at
+    # the end "global state == shadow state" means: the code under test never consumed (or reseeded) them
+    sh_np = np.random.RandomState(pert)
+    sh_py = random.Random(pert * 7 + 1)
     for _ in range(pert % 13):
         np.random.rand()
         random.random()
+        sh_np.rand()
+        sh_py.random()
 
     def disturb(k):
         # the hidden state keeps moving, differently in the two processes
         for _ in range((pert + k) % 5):
             np.random.standard_normal()
             random.random()
+            sh_np.standard_normal()
+            sh_py.random()
 
-    import deephyper
-    from deephyper.evaluator import Evaluator
-    from deephyper.hpo import CBO, RandomSearch, RegularizedEvolution
-
-    assert os.path.realpath(deephyper.__file__).startswith(os.path.realpath(src)), deephyper.__file__
+    def globals_touched():
+        a, b = np.random.get_state(), sh_np.get_state()
+        np_same = a[0] == b[0] and (a[1] == b[1]).all() and a[2:] == b[2:]
+        return {"np_global_touched": not bool(np_same), "py_global_touched": random.getstate() != sh_py.getstate()}
 
     out = {"status": "ok", "props": [], "error": ""}
     problem = build_problem(cfg)
@@ -129,7 +143,7 @@ def main():
             if cfg.get("acq_opt", "auto") in ("ga", "mixedga"):
                 kw["acq_optimizer_freq"] = 1
             s = CBO(problem, ev, **common, **kw)
-            if cfg.get("transfer"):
+            if cfg.get("transfer") == "gmm":
                 # transfer learning from a fixed table that lacks two hyperparameters
                 import pandas as pd
 
@@ -177,6 +191,7 @@ def main():
     except Exception as e:
         out["status"] = "raised"
         out["error"] = f"{type(e).__name__}: {e}"[:300]
+    out.update(globals_touched())
     print(json.dumps(out))
 
 
